@@ -13,7 +13,7 @@ CHECK_DEADLOCK FALSE
 
 
 def validate(ctx, module, traces, name, canaries=(), workers=16, timeout=1200, consts="", env=None,
-             where=lambda tr, m: None, count=True, xmx="12g"):
+             where=lambda tr, m: None, count=True, xmx="12g", extra_cfg=""):
     """traces: list of dicts with unique 'id'.  canaries: ids that MUST be rejected.
     Returns {id: {"verdict": "ACCEPT"/"REJECT", "mismatches": [...]}}.  Non-canary rejections are
     turned into ctx.violation(clause, where, detail)."""
@@ -27,7 +27,7 @@ def validate(ctx, module, traces, name, canaries=(), workers=16, timeout=1200, c
     e = {"RV_TRACE_FILE": path}
     if env:
         e.update(env)
-    cfg = (("CONSTANTS " + consts + "\n") if consts else "") + CFG
+    cfg = (("CONSTANTS " + consts + "\n") if consts else "") + CFG + extra_cfg
     res = tlc.run(module, cfg, ctx.work, env=e, workers=workers, timeout=timeout, name=name, xmx=xmx)
     if res.invariant_violated or res.property_violated:
         raise MachineryError("trace spec %s reported an invariant violation: %s" % (module, res.counterexample[:1500]))
